@@ -7,8 +7,8 @@ package engine
 import "context"
 
 var c08Templates = []string{
-	"k0", "k1", "n0", "n1", "1.0", "0.5", "X", "Y", "foo", "f(X)", "f(k0)", "g(k0, n0)", "h(k0, k1, n0)", "[k0]",
-	"\"a\"", "[a]", "'.'(a, [])", "g(n0, k0)", "fo", "-(1)", "- 1", "1", "f(1.0)",
+	"k0", "k1", "w0", "w1", "1.0", "0.5", "X", "Y", "foo", "f(X)", "f(k0)", "g(k0, w0)", "h(k0, k1, n0)", "[k0]",
+	"\"a\"", "[a]", "'.'(a, [])", "g(w1, k0)", "fo", "-(1)", "- 1", "1", "f(1.0)",
 }
 
 func c08Parse3(vm *VM, i, j, k int) (Term, Term, Term) {
@@ -77,7 +77,7 @@ func VH_C08_orderN() int { return len(c08Templates) * len(c08Templates) }
 
 // ---- sort/2, keysort/2 ----
 
-var c08Elems = []string{"k0", "k1", "n0", "1.0", "X", "f(k0)", "f(k1)", "g(k0, k1)", "foo", "[k0]", "\"a\"", "h(k0, k1, n0)"}
+var c08Elems = []string{"k0", "k1", "w0", "w1", "1.0", "X", "f(k0)", "f(k1)", "g(k0, k1)", "foo", "[k0]", "\"a\"", "h(k0, k1, n0)"}
 
 // VH_C08_sort: inst = length (0..4); elements by case split over c08Elems with symbolic leaves.
 func VH_C08_sort(vm *VM, inst int) {
